@@ -7,6 +7,7 @@ import (
 	"bytes"
 	"encoding/binary"
 	"encoding/json"
+	"errors"
 	"fmt"
 	"os"
 	"path/filepath"
@@ -37,6 +38,11 @@ type Case struct {
 	Opt     bool             `json:"opt,omitempty"`     // C02/C03: encode with OptimizeTrun
 	Info    bool             `json:"info,omitempty"`    // C02: call Info between encodes
 	SWFirst bool             `json:"swfirst,omitempty"` // C02: the first encoding of each structure goes through EncodeSW
+	// C02, with Info: InfoFirst calls Info before the first encode as well (a structure that Info has looked at, e.g.
+	// a lazily parsed senc, must encode to the same bytes); InfoLevel is the specificBoxLevels argument
+	// ("" stands for "all:1", the level every case used before the field existed).
+	InfoFirst bool   `json:"infofirst,omitempty"`
+	InfoLevel string `json:"infolevel,omitempty"`
 	// Synth: bytes written by the grammar generator internal/boxgen (legal by construction); Origin names what
 	// was asked of it ("box:stsc", "file:frag"). Muts apply on top. Seed is "" for such cases.
 	Synth  harness.HexBytes `json:"synth,omitempty"`
@@ -86,14 +92,26 @@ type GenConfig struct {
 	SynthPct  int  // percentage of cases whose input comes from the grammar generator instead of the seed pool
 }
 
+// synthTypes: the box types the synth legs draw from (uniformly, see boxmut.Uniform). The containers and tables with
+// the most decoder logic come first and four times (weight 4); every other type boxgen can write follows once.
 var synthTypes []string
 
+var synthWeighted = []string{"moov", "trak", "stbl", "stsd", "moof", "traf", "stsc", "trun", "tfhd", "sgpd", "sbgp", "senc", "saiz", "saio", "sidx", "tfra", "elst", "ctts", "pssh", "emsg", "subs", "meta", "udta"}
+
+var synthFileKinds = []string{"prog", "init", "media", "frag", "frag", "any"}
+
 func init() {
-	synthTypes = append(synthTypes, boxgen.LeafTypes()...)
-	synthTypes = append(synthTypes, boxgen.ContainerTypes()...)
-	// weight the containers and tables with the most decoder logic
-	for i := 0; i < 3; i++ {
-		synthTypes = append(synthTypes, "moov", "trak", "stbl", "stsd", "moof", "traf", "stsc", "trun", "tfhd", "sgpd", "sbgp", "senc", "saiz", "saio", "sidx", "tfra", "elst", "ctts", "pssh", "emsg", "subs", "meta", "udta")
+	heavy := map[string]bool{}
+	for _, ty := range synthWeighted {
+		heavy[ty] = true
+		for i := 0; i < 4; i++ {
+			synthTypes = append(synthTypes, ty)
+		}
+	}
+	for _, ty := range append(boxgen.LeafTypes(), boxgen.ContainerTypes()...) {
+		if !heavy[ty] {
+			synthTypes = append(synthTypes, ty)
+		}
 	}
 }
 
@@ -101,14 +119,31 @@ func init() {
 func genSynth(t *rapid.T, c *Case) {
 	c.Seed, c.Box = "", -1
 	if c.Level == "file" {
-		kind := rapid.SampledFrom([]string{"prog", "init", "media", "frag", "frag", "any"}).Draw(t, "synthKind")
+		kind := synthFileKinds[boxmut.Uniform(t, "synthKind", len(synthFileKinds))]
 		c.Origin = "file:" + kind
 		c.Synth = boxgen.File(t, kind, boxgen.Opt{})
 		return
 	}
-	typ := rapid.SampledFrom(synthTypes).Draw(t, "synthType")
+	typ := synthTypes[boxmut.Uniform(t, "synthType", len(synthTypes))]
 	c.Origin = "box:" + typ
 	c.Synth = boxgen.Box(t, typ, boxgen.Opt{})
+}
+
+// InfoLevels: the specificBoxLevels arguments C02 draws from ("none" = empty string: top level of detail only).
+var InfoLevels = []string{"all:1", "none", "trun:1,senc:1"}
+
+// SeedKind classifies where the input of a case comes from: frag | prog | repo | synth (| data).
+func (c Case) SeedKind() string {
+	switch {
+	case c.Seed == "" && c.Synth != nil:
+		return "synth"
+	case c.Seed == "":
+		return "data"
+	}
+	if i := strings.IndexByte(c.Seed, ':'); i > 0 {
+		return c.Seed[:i]
+	}
+	return "other"
 }
 
 var fieldOps = map[string]bool{"bytes": true, "payload": true, "zero": true, "verflags": true, "count": true}
@@ -116,12 +151,16 @@ var fieldOps = map[string]bool{"bytes": true, "payload": true, "zero": true, "ve
 func Gen(t *rapid.T, cfg GenConfig) Case {
 	repo := harness.E.RepoDir
 	names := seeds.Names(repo, cfg.MaxSeed)
-	c := Case{Seed: rapid.SampledFrom(names).Draw(t, "seed"), Box: -1}
+	c := Case{Seed: names[boxmut.Uniform(t, "seed", len(names))], Box: -1}
 	c.Level = rapid.SampledFrom([]string{"box", "box", "file"}).Draw(t, "level")
 	c.Path = rapid.SampledFrom([]string{"reader", "sr"}).Draw(t, "path")
-	c.Opt = rapid.IntRange(0, 3).Draw(t, "opt") == 0
+	c.Opt = rapid.Bool().Draw(t, "opt")
 	c.Info = rapid.Bool().Draw(t, "info")
 	c.SWFirst = rapid.Bool().Draw(t, "swfirst")
+	if c.Info {
+		c.InfoFirst = rapid.Bool().Draw(t, "infoFirst")
+		c.InfoLevel = rapid.SampledFrom(InfoLevels).Draw(t, "infoLevel")
+	}
 	if c.Level == "box" {
 		c.Box = rapid.IntRange(0, 600).Draw(t, "box")
 	}
@@ -237,6 +276,12 @@ func DirtySW(n int) *bits.FixedSliceWriter {
 		buf[i] = 0xa5
 	}
 	return bits.NewFixedSliceWriterFromSlice(buf)
+}
+
+// IsOverflow reports whether err is the slice writer's "buffer too small" error. The library's encoders allocate
+// exactly Size() bytes (or are handed them): an overflow means that Size() announced less than the encoder writes.
+func IsOverflow(err error) bool {
+	return err != nil && (errors.Is(err, bits.ErrSliceWrite) || strings.Contains(err.Error(), bits.ErrSliceWrite.Error()))
 }
 
 func EncodeSW(d Decoded, boxTree bool, opt bool, size int) ([]byte, error) {
@@ -515,6 +560,8 @@ type CmpStats struct {
 	MoovReorder  int
 	MaskedBytes  int
 	Malformed    int // inputs whose size fields the independent walker rejects (no byte-level claim)
+	NotCovered   int // inputs the independent walker does not cover to the last byte (no byte-level claim)
+	MoovOrderChk int // moov boxes with traks and other children on which the relative-order clause was judged
 }
 
 func boxPayload(data []byte, b *boxwalk.Box) []byte { return data[b.PayloadStart():b.End()] }
@@ -544,6 +591,38 @@ func moovOrder(kids []*boxwalk.Box) ([]*boxwalk.Box, bool) {
 	return out, changed
 }
 
+// moovRelativeOrder states the order clause of the don't-care list ("moov trak adjacency") without the algorithm of
+// MoovBox.AddChild: whatever the re-ordering does, the traks keep their relative input order and so do all the other
+// children (the two subsequences are compared pairwise, box by box, like any other child list).
+func moovRelativeOrder(in, out []byte, a, b *boxwalk.Box, path string, pristine bool, st *CmpStats) *Diff {
+	split := func(kids []*boxwalk.Box) (traks, others []*boxwalk.Box) {
+		for _, k := range kids {
+			if k.Type == "trak" {
+				traks = append(traks, k)
+			} else {
+				others = append(others, k)
+			}
+		}
+		return
+	}
+	ti, oi := split(a.Children)
+	to, oo := split(b.Children)
+	if len(ti) > 0 && len(oi) > 0 {
+		st.MoovOrderChk++
+	}
+	var scratch CmpStats // the pairs were counted once already
+	for _, p := range [][2][]*boxwalk.Box{{ti, to}, {oi, oo}} {
+		what := "traks"
+		if len(p[0]) > 0 && p[0][0].Type != "trak" {
+			what = "non-trak children"
+		}
+		if d := cmpLists(in, out, p[0], p[1], path, pristine, &scratch); d != nil {
+			return &Diff{"C01|moov|relative order of the " + what + " changed", fmt.Sprintf("%s: input %s, output %s (%s)", path, types(a.Children), types(b.Children), d.Msg)}
+		}
+	}
+	return nil
+}
+
 // CompareRoundTrip compares the input with the re-encoded output box by box. pristine inputs are compared
 // strictly; for mutated inputs a leaf box whose output is a (masked) prefix of the input is counted as
 // "surplus bytes dropped" (spec entry "surplus").
@@ -566,6 +645,7 @@ func CompareRoundTrip(in, out []byte, pristine bool, st *CmpStats) *Diff {
 	}
 	if covered != len(in) {
 		// the decoder accepted an input that the independent walker does not fully understand: no claim
+		st.NotCovered++
 		return nil
 	}
 	return cmpLists(in, out, ti, to, "", pristine, st)
@@ -638,7 +718,13 @@ func cmpBox(in, out []byte, a, b *boxwalk.Box, path string, pristine bool, st *C
 				st.MoovReorder++
 			}
 		}
-		return cmpLists(in, out, ka, b.Children, path, pristine, st)
+		if d := cmpLists(in, out, ka, b.Children, path, pristine, st); d != nil {
+			return d
+		}
+		if a.Type == "moov" {
+			return moovRelativeOrder(in, out, a, b, path, pristine, st)
+		}
+		return nil
 	}
 	if len(pa) == len(pb) {
 		return cmpBytes(a.Type, pa, pb, path, st)
